@@ -26,6 +26,7 @@ func c08Correspondence(c *hx.Ctx) {
 	c08CorrSV1(c)
 	c08CorrJLS(c)
 	c08CorrJ2K(c)
+	c08CorrMCT(c)
 }
 
 func c08N(c *hx.Ctx, quick, thorough int) int {
